@@ -157,7 +157,7 @@ func c19TypeKey(c *Ctx) {
 		}
 		c.Check(rule, fmt.Sprintf("%s|result#%d", fnName(fn), n), ok, leaf.V.Pos(), why)
 	}
-	c.Floor(rule, 2)
+	c.Floor(rule, 1)
 }
 
 // c19SamplesPrivate implements C19.samples-private: the exporter sorts the sample list it is handed (Stats.Get sorts
